@@ -42,8 +42,9 @@ def gen_program(rng, gl):
             con = None
             if rng.random() < 0.35:
                 con = (rng.randrange(0, ln), rng.choice('lge'), rng.choice((0, 100, 462, 520, 751, 777, 1000, 1500)))
-            rules.append(dict(pre=pre, pat=pat, acts=acts, con=con))
-        prog.append(dict(maxloop=rng.choice((1, 3, 5)), rules=rules, alpha=alpha))
+            ret = rng.choice((-1, -1, -2, -3, 1, 2)) if rng.random() < 0.25 else 0
+            rules.append(dict(pre=pre, pat=pat, acts=acts, con=con, ret=ret))
+        prog.append(dict(maxloop=rng.choice((1, 2, 3, 5)), rules=rules, alpha=alpha))
     nsub = len(prog)
     # positioning passes: attach items to earlier / later items of the window, set attach / with points, shifts, advances
     for _ in range(rng.choice((0, 0, 1, 1, 2))):
@@ -66,8 +67,9 @@ def gen_program(rng, gl):
                 if rng.random() < 0.2: al.append(('A', rng.choice((0, 100, 777, 1500))))
                 acts.append(al)
             con = (rng.randrange(0, ln), rng.choice('lge'), rng.choice((0, 462, 520, 751, 1000))) if rng.random() < 0.2 else None
-            rules.append(dict(pre=pre, pat=pat, acts=acts, con=con))
-        prog.append(dict(maxloop=rng.choice((1, 3, 5)), rules=rules, alpha=alpha))
+            ret = rng.choice((-1, -2, 1)) if rng.random() < 0.2 else 0
+            rules.append(dict(pre=pre, pat=pat, acts=acts, con=con, ret=ret))
+        prog.append(dict(maxloop=rng.choice((1, 2, 3, 5)), rules=rules, alpha=alpha))
     return prog, nsub
 
 
